@@ -370,8 +370,11 @@ def check_property(pid, tier, seed=0, replay_only=None):
         exit_code = 1
     elif problems:
         exit_code = max(c for c, _ in problems)
-    for l in sorted(set(known_lines.values())):
-        print(l)
+    by_id = {}
+    for (kid, oid), l in sorted(known_lines.items()):
+        by_id.setdefault(kid, []).append(l)
+    for kid, ls in sorted(by_id.items()):
+        print(ls[0] + (' (and %d more obligations of the same finding)' % (len(ls) - 1) if len(ls) > 1 else ''))
     for l in lines:
         print(l)
     for c, t in problems[:60]:
